@@ -14,6 +14,7 @@ RULES = {
     "R-01.2": "_validate_labels raises LabelTooLong exactly for len(label) >= 64 and NameTooLong exactly for sum(len+1) >= 256",
     "R-01.3": "wire decoding: every seek target is strictly below every earlier pointer and the name's start; literal labels are < 64 octets; other label types raise; the loop consumes input on every iteration",
     "R-01.4": "compression table: offsets stored are <= 0x3FFF and taken before the label is written, keyed by the same suffix that is looked up; the root is never inserted; pointers are 0xC000 + stored offset",
+    "R-01.13": "ASCII ends at 0x7F: is_all_ascii - which decides whether name text goes down the IDNA path - says 'not ASCII' exactly for code points above 0x7F (its refusing test, evaluated by the checker at 0x7E, 0x7F and 0x80, is False, False, True); DEL in a label is plain ASCII text",
     "R-01.12": "compressed names are decoded in the message they sit in: every wire Parser is built over the whole buffer and positioned through the bounded seek() (rule of C04 R-04.5, run here directly)",
     "R-01.11": "a name token is unescaped exactly once: Tokenizer.get_name / as_name hand the raw token text to dns.name.from_text (which runs the escape state machine) and never call Token.unescape() first - unescaping twice turns `\\.` into a label separator and `\\@` into the origin",
     "R-01.10": "the text escape state machine (from_text and from_unicode alike) starts every escape from a clean state: the branch that enters the escaping state zeroes the digit counter and the accumulated value there, not at label boundaries - otherwise a second escape in one label is misread or refused",
@@ -373,6 +374,20 @@ def run(model, rep, tier):
                   f"the branch that enters the escaping state does not zero {missing}: after one complete \\DDD escape the next escape in the same label starts with stale digits "
                   "(it is refused with BadEscape or decoded to the wrong octet), so text the library itself produced does not parse back", stmt="escape-reset")
     rep.floor("R-01.10", n_sm, 2)
+    from engine.minieval import evaluate, Unsupported
+    ia = model.func("dns.name.is_all_ascii")
+    tests13 = [n for n in ast.walk(ia.node) if isinstance(n, ast.If) and any(isinstance(b, ast.Return) and isinstance(b.value, ast.Constant) and b.value.value is False for b in n.body)]
+    if len(tests13) != 1:
+        rep.blind("R-01.13", ia.qualname, where(ia, ia.node), "the `if <code point test>: return False` of is_all_ascii was not found", stmt="ascii-bound")
+    else:
+        ords = [c for c in ast.walk(tests13[0].test) if isinstance(c, ast.Call) and src(c.func) == "ord"]
+        try:
+            verdict = [bool(evaluate(tests13[0].test, {src(ords[0]): v}, lambda nd: model.const(ia.module, nd))) for v in (0x7E, 0x7F, 0x80)] if ords else None
+            rep.check(verdict == [False, False, True], "R-01.13", ia.qualname, where(ia, tests13[0]), "code points up to 0x7F are ASCII, 0x80 and above are not",
+                      f"`{src(tests13[0].test)}` evaluates to {verdict} at 0x7E, 0x7F, 0x80 (expected [False, False, True]): text containing DEL (or a non-ASCII character, the other way round) takes the wrong path - "
+                      "a label the library itself printed as `a\\127b` next to a U-label is pushed through IDNA and refused", stmt="ascii-bound")
+        except (Unsupported, AnalysisError) as e:
+            rep.blind("R-01.13", ia.qualname, where(ia, tests13[0]), f"test not evaluable: {e}", stmt="ascii-bound")
     from rules.c04 import check_parser_reads
     check_parser_reads(model, rep, "R-01.12")
     # ---------------------------------------------------------------- R-01.11
@@ -391,6 +406,8 @@ def run(model, rep, tier):
 
 
 WITNESSES = [
+    {"id": "c01-is-all-ascii-excludes-del", "rule": "R-01.13", "file": "dns/name.py", "expect": "fires",
+     "old": "        if ord(c) > 0x7F:\n            return False", "new": "        if ord(c) >= 0x7F:\n            return False"},
     {"id": "c01-escapify-fast-path-lets-backslash-through", "rule": "R-01.5", "file": "dns/name.py", "expect": "fires",
      "edits": [{"file": "dns/name.py", "old": "_escaped_text = '\"().;\\\\@$'\n", "new": "_escaped_text = '\"().;\\\\@$'\nimport re\n_plain_label = re.compile(rb\"[0-9A-z_*-]+\")\n"},
                {"file": "dns/name.py", "old": "    if isinstance(label, bytes):\n        # Ordinary DNS label mode.", "new": "    if isinstance(label, bytes):\n        if _plain_label.fullmatch(label):\n            return label.decode(\"ascii\")\n        # Ordinary DNS label mode."}]},
